@@ -148,6 +148,15 @@ func VerifDir() string {
 	return "/verif"
 }
 
+// OutDir is where evidence and replay files go (VERIF_OUT overrides it for runs against
+// deliberately broken trees, so that the committed evidence is not overwritten).
+func OutDir() string {
+	if d := os.Getenv("VERIF_OUT"); d != "" {
+		return d
+	}
+	return VerifDir()
+}
+
 // ---------------------------------------------------------------------------
 // worker side
 
@@ -530,7 +539,7 @@ func (l *limitedWriter) Write(p []byte) (int, error) {
 }
 
 func finish(ck *Check, tier string, seed, nUnits, nWorkers int, startT time.Time, tot *totals, extraCov map[string]interface{}) int {
-	vdir := VerifDir()
+	vdir := OutDir()
 	os.MkdirAll(filepath.Join(vdir, "evidence"), 0755)
 	os.MkdirAll(filepath.Join(vdir, "replays"), 0755)
 	findings := loadFindings()
